@@ -23,7 +23,7 @@ func init() {
 		Rule: "cases: seeded histories of 1-30 operations from {Append, Prepend, Replace, Clear, All, caller overwrites an earlier argument slice in place, caller appends into the " +
 			"spare capacity of an earlier argument, caller writes through the slice returned by All, Append/Prepend/Replace whose argument is a sub-slice of All(), caller keeps the result of All() and later passes it back as an argument} on one dst.Decorations; arguments are sub-slices of a shared arena with " +
 			"seeded spare capacity (also nil and empty variadics). A []string reference model is stepped in lock-step; the arena is snapshotted around every call (whole " +
-			"arg[:cap(arg)]); at the end (every 10th history) the list is attached to one of 21 decoration points of a parsed file (statement, value / type / import spec, field, function declaration, call, case clause, and Start / X / End of a package-qualified identifier restored with import management), printed, and the comment stream of the output is compared with " +
+			"arg[:cap(arg)]); at the end (every 10th history) the list is attached to one of 28 decoration points of a parsed file (statement, value / type / import spec, field, function declaration, call, case clause, and Start / X / End of a package-qualified identifier restored with import management), printed, and the comment stream of the output is compared with " +
 			"All(). distinct_nontrivial = distinct (operation-kind sequence) hashes of length >= 3.",
 		Floor: 5000,
 		Run:   runC19,
@@ -315,6 +315,10 @@ func c19Render(c *fw.Ctx, id string, where int, d dst.Decorations, fail func(rul
 		{"CallExpr.Lparen", &call.Decs.Lparen}, {"Ident(arg).End", &call.Args[0].(*dst.Ident).Decs.End},
 		{"CaseClause.Colon", &cc.Decs.Colon}, {"CaseClause.Case", &cc.Decs.Case},
 		{"GenDecl.Start", &f.Decls[1].(*dst.GenDecl).Decs.Start},
+		// the signature node nested in a function declaration has decoration points of its own
+		{"FuncDecl.Type.Params", &fn.Type.Decs.Params}, {"FuncDecl.Type.Func", &fn.Type.Decs.Func},
+		{"FuncDecl.Type.Start", &fn.Type.Decs.Start}, {"FuncDecl.Type.End", &fn.Type.Decs.End},
+		{"FuncDecl.Params", &fn.Decs.Params}, {"FuncDecl.Name", &fn.Decs.Name}, {"FuncDecl.Func", &fn.Decs.Func},
 	}
 	// a package-qualified identifier under import management (rendered by the hand-written
 	// identifier-to-selector expansion): its three points
